@@ -662,6 +662,20 @@ func c17R3(c *Ctx, g *gossipAnchors, fn *ssa.Function, ws []gWrite) {
 			snapOK = true
 		}
 	})
+	// or: the library form slices.Collect(maps.Values(local.Entries)) (every value, by the library's contract)
+	allInstrs(fn, func(i ssa.Instruction) {
+		cl, ok := i.(*ssa.Call)
+		if !ok || commonName(&cl.Call) != "slices.Collect" || !dominatesInstr(cl, reset.instr) || len(cl.Call.Args) != 1 {
+			return
+		}
+		src, ok := strip(cl.Call.Args[0]).(*ssa.Call)
+		if !ok || commonName(&src.Call) != "maps.Values" || len(src.Call.Args) != 1 {
+			return
+		}
+		if base, ok := loadedField(src.Call.Args[0], g.entriesF); ok && g.isLocalState(base) {
+			snapOK = true
+		}
+	})
 	c.check(snapOK, "C17.R3", fnName(fn)+"/snapshot-complete", reset.instr.Pos(),
 		"every entry is copied to the snapshot before the map is reset",
 		"the snapshot taken before resetting the entries does not unconditionally include every entry")
